@@ -7,6 +7,7 @@
 //! position, then a clean end / an error / nothing; the octets accepted by the socket are the
 //! concatenation of `len_be16 ‖ body` of the sent messages.
 
+use std::future::Future;
 use std::io;
 use std::net::SocketAddr;
 use std::pin::Pin;
@@ -571,6 +572,184 @@ fn compositions(n: usize) -> Vec<Vec<u16>> {
     out
 }
 
+// ---------------------------------------------------------------------------------------------
+// the server side reads its framed stream through `TimeoutStream` (idle timeout between
+// requests): it must hand on exactly the items of the wrapped stream, in order, and turn only a
+// silence of `timeout` into an error. Driven on a paused tokio clock (deterministic virtual time).
+
+#[derive(Clone, Copy, Debug, Serialize, Deserialize, PartialEq, Eq)]
+enum Ev {
+    Item(u8),
+    /// the wrapped stream is Pending for this many milliseconds
+    Gap(u16),
+    Fail,
+}
+
+#[derive(Clone, Debug, Serialize, Deserialize)]
+struct IdleCase {
+    timeout_ms: u16,
+    events: Vec<Ev>,
+    /// after the last event: true = the peer stays silent, false = clean end of stream
+    hang: bool,
+}
+
+struct Scripted {
+    events: std::collections::VecDeque<Ev>,
+    hang: bool,
+    sleep: Option<Pin<Box<tokio::time::Sleep>>>,
+}
+
+impl Stream for Scripted {
+    type Item = io::Result<u8>;
+
+    fn poll_next(mut self: Pin<&mut Self>, cx: &mut Context<'_>) -> Poll<Option<Self::Item>> {
+        loop {
+            if let Some(s) = self.sleep.as_mut() {
+                match s.as_mut().poll(cx) {
+                    Poll::Pending => return Poll::Pending,
+                    Poll::Ready(()) => self.sleep = None,
+                }
+            }
+            match self.events.pop_front() {
+                Some(Ev::Item(x)) => return Poll::Ready(Some(Ok(x))),
+                Some(Ev::Fail) => return Poll::Ready(Some(Err(io::Error::new(io::ErrorKind::ConnectionReset, "scripted")))),
+                Some(Ev::Gap(ms)) => self.sleep = Some(Box::pin(tokio::time::sleep(std::time::Duration::from_millis(ms as u64)))),
+                None if self.hang => return Poll::Pending,
+                None => return Poll::Ready(None),
+            }
+        }
+    }
+}
+
+#[derive(Debug, PartialEq, Eq, Clone)]
+enum Out {
+    Item(u8),
+    TimedOut,
+    OtherErr,
+    End,
+    /// still pending after an hour of virtual time
+    Silent,
+}
+
+fn idle_case() -> impl Strategy<Value = IdleCase> {
+    let ev = prop_oneof![
+        6 => any::<u8>().prop_map(Ev::Item),
+        5 => prop_oneof![Just(0u16), 1u16..5, 5u16..60, Just(99), Just(100), Just(101), 100u16..400].prop_map(Ev::Gap),
+        1 => Just(Ev::Fail),
+    ];
+    (prop_oneof![Just(0u16), 1u16..5, Just(20), Just(100)], vec(ev, 0..=10), any::<bool>()).prop_map(|(timeout_ms, events, hang)| IdleCase { timeout_ms, events, hang })
+}
+
+fn run_idle(c: &IdleCase, rec: &mut Rec) -> CaseResult {
+    use futures_util::StreamExt;
+    use hickory_server::server::TimeoutStream;
+    let rt = tokio::runtime::Builder::new_current_thread()
+        .enable_time()
+        .start_paused(true)
+        .build()
+        .map_err(|e| crate::core::Fail::new("harness-init", e.to_string()))?;
+    let inner = Scripted { events: c.events.iter().copied().collect(), hang: c.hang, sleep: None };
+    let t = std::time::Duration::from_millis(c.timeout_ms as u64);
+    let got: Vec<Out> = rt.block_on(async move {
+        let mut ts = TimeoutStream::new(inner, t);
+        let mut out = Vec::new();
+        loop {
+            match tokio::time::timeout(std::time::Duration::from_secs(3600), ts.next()).await {
+                Err(_) => {
+                    out.push(Out::Silent);
+                    break;
+                }
+                Ok(None) => {
+                    out.push(Out::End);
+                    break;
+                }
+                Ok(Some(Ok(x))) => out.push(Out::Item(x)),
+                // the server stops reading a connection at the first error
+                Ok(Some(Err(e))) => {
+                    out.push(if e.kind() == io::ErrorKind::TimedOut { Out::TimedOut } else { Out::OtherErr });
+                    break;
+                }
+            }
+        }
+        out
+    });
+
+    // reference: walk the script; `idle` = time since the wrapped stream last produced something
+    // (or since the start). A silence longer than the timeout is an error at that point; exactly
+    // equal is a tie between two timers of the same instant (either order is acceptable).
+    let tmo = c.timeout_ms as u64;
+    let mut want: Vec<Out> = Vec::new();
+    let mut alt: Option<Vec<Out>> = None; // the other acceptable output when a tie occurred
+    let mut idle = 0u64;
+    let mut done = false;
+    let mut gaps_near = false;
+    for ev in &c.events {
+        match ev {
+            Ev::Gap(ms) => idle += *ms as u64,
+            Ev::Item(_) | Ev::Fail => {
+                if tmo > 0 && idle.abs_diff(tmo) <= 1 {
+                    gaps_near = true;
+                }
+                if tmo > 0 && idle > tmo {
+                    want.push(Out::TimedOut);
+                    done = true;
+                    break;
+                }
+                if tmo > 0 && idle == tmo && alt.is_none() {
+                    let mut a = want.clone();
+                    a.push(Out::TimedOut);
+                    alt = Some(a);
+                }
+                idle = 0;
+                match ev {
+                    Ev::Item(x) => want.push(Out::Item(*x)),
+                    _ => {
+                        want.push(Out::OtherErr);
+                        done = true;
+                        break;
+                    }
+                }
+            }
+        }
+    }
+    if !done {
+        if tmo > 0 && idle > tmo {
+            want.push(Out::TimedOut);
+        } else if c.hang {
+            want.push(if tmo > 0 { Out::TimedOut } else { Out::Silent });
+        } else {
+            if tmo > 0 && idle == tmo && alt.is_none() {
+                let mut a = want.clone();
+                a.push(Out::TimedOut);
+                alt = Some(a);
+            }
+            want.push(Out::End);
+        }
+    }
+    rec.class(format!("timeout:{}", match c.timeout_ms { 0 => "off", 1..=4 => "1-4ms", 20 => "20ms", _ => "100ms" }));
+    rec.class(format!("ends:{:?}", want.last().unwrap_or(&Out::End)).split('(').next().unwrap_or("").to_string());
+    if gaps_near {
+        rec.class("silence-within-1ms-of-the-timeout");
+    }
+    if c.events.iter().any(|e| matches!(e, Ev::Gap(g) if *g > 0)) && c.events.iter().filter(|e| matches!(e, Ev::Item(_))).count() >= 2 {
+        rec.nontrivial();
+    }
+    if got != want && alt.as_ref() != Some(&got) {
+        let items = |v: &[Out]| v.iter().filter(|o| matches!(o, Out::Item(_))).cloned().collect::<Vec<_>>();
+        let sig = if !want.starts_with(&items(&got)) && !items(&want).starts_with(&items(&got)) {
+            "idle-timeout-wrapper-changed-the-messages"
+        } else if got.last() == Some(&Out::TimedOut) {
+            "idle-timeout-fired-without-a-silence-of-that-length"
+        } else if want.last() == Some(&Out::TimedOut) {
+            "idle-timeout-did-not-fire"
+        } else {
+            "idle-timeout-wrapper-output-differs"
+        };
+        vfail!(sig, "timeout {} ms, script {:?} then {}: got {:?}, expected {:?}{}", c.timeout_ms, c.events, if c.hang { "silence" } else { "end" }, got, want, alt.map(|a| format!(" or {a:?}")).unwrap_or_default());
+    }
+    Ok(())
+}
+
 pub fn check() -> Option<Check> {
     let sampled = crate::core::prop_hang(
         "framing_sampled",
@@ -652,14 +831,15 @@ pub fn check() -> Option<Check> {
         run_case,
     );
 
+    let idle = crate::core::prop("server_idle_timeout_wrapper", 60_000, 2_000_000, |_t: crate::core::Tier| idle_case(), run_idle);
     Some(Check {
         id: "C17",
         level: "exploration",
-        rule: "cases = (0..3 inbound messages with lengths from {1,2,3,255,256,257,300} ∪ 1..300 ∪ {511,512,4096,65535}, a cyclic read-chunk script with sizes ≥1 and zero-progress would-block steps, a close position {never, on a boundary, strictly inside a prefix/body, reset}, 0..3 outbound messages, a cyclic write-acceptance script, native vs default vectored write, send points). Small scope: for every message-length shape whose framed stream is ≤10 (quick) / ≤13 (thorough) octets, ALL compositions of the stream into read chunks (plain and with a would-block before every chunk) × ALL close positions, and ALL compositions into write acceptances. Non-trivial = distinct case AND (a read-chunk boundary falls inside a length prefix OR a vectored write accepted < 2 octets)",
+        rule: "cases = (0..3 inbound messages with lengths from {1,2,3,255,256,257,300} ∪ 1..300 ∪ {511,512,4096,65535}, a cyclic read-chunk script with sizes ≥1 and zero-progress would-block steps, a close position {never, on a boundary, strictly inside a prefix/body, reset}, 0..3 outbound messages, a cyclic write-acceptance script, native vs default vectored write, send points). Small scope: for every message-length shape whose framed stream is ≤10 (quick) / ≤13 (thorough) octets, ALL compositions of the stream into read chunks (plain and with a would-block before every chunk) × ALL close positions, and ALL compositions into write acceptances. Non-trivial = distinct case AND (a read-chunk boundary falls inside a length prefix OR a vectored write accepted < 2 octets). server_idle_timeout_wrapper: the server's TimeoutStream around a scripted stream (items, silences of 0..400 ms, errors, end or lasting silence; timeout off / 1-4 / 20 / 100 ms) on a paused tokio clock: items pass unchanged and in order, only a silence longer than the timeout becomes an error",
         assumptions: vec![
             "zero-length frames and Ok(0) from a write are outside the stated domain and not generated",
             "the scripted socket wakes immediately after a would-block; a silent peer is modelled as Pending without wake",
         ],
-        subs: vec![sampled, small],
+        subs: vec![sampled, small, idle],
     })
 }
